@@ -173,8 +173,17 @@ func (g *Gen) execInstr(fr *Frame, st *State, in ssa.Instruction, r string) bool
 		}
 		if obj := x.Object(); obj != nil {
 			if _, isVar := obj.(*types.Var); isVar {
-				st.src[obj] = fr.val(x.X)
-				st.srcAddr[obj] = x.IsAddr
+				fr.collectObjs()
+				if a, ok := fr.allocOf[obj]; ok {
+					// address-taken variable: always resolved through its cell
+					if av, ok := fr.vals[a]; ok {
+						st.src[obj] = av
+						st.srcAddr[obj] = true
+					}
+				} else {
+					st.src[obj] = fr.val(x.X)
+					st.srcAddr[obj] = x.IsAddr
+				}
 			}
 		}
 	case *ssa.Alloc:
